@@ -3,7 +3,7 @@ PROP = dict(
     id="C14",
     module="FV.C14.Props",
     coq_targets=["theories/C14/Props.vo"],
-    theorems=["filename_injective", "filename_no_reserved", "filename_digits_in_table",
+    theorems=["filename_injective", "filename_injective_ignoring_case", "filename_no_reserved", "filename_digits_in_table",
               "persist_transparent", "kern_file_injective"],
     prelude="Require Import FV.C14.Model.\nFrom Coq Require Import List NArith ZArith QArith Bool.",
     harness_args=lambda tier, seed: ["--seed", str(seed), "--n", str(N[tier])],
